@@ -2,9 +2,9 @@
     Statements only (ideal arithmetic).  Proved for the polynomial resamplers; the reported values
     of the other types are characterised; the sinc types are a recorded finding (their streams are
     not delayed by sinc_len*ratio/2).                                                          *)
-From Coq Require Import ZArith Reals List Bool.
+From Coq Require Import String ZArith Reals List Bool.
 From Rubato.Model Require Import Num Reals Base Async.
-From Rubato.Gen Require Import FastGen SincGen SynchroGen.
+From Rubato.Gen Require Import FastGen SincGen SynchroGen Summary.
 From Rubato.Proofs Require Import StepperR DelayR.
 Local Open Scope R_scope.
 
@@ -45,6 +45,12 @@ Theorem C14_sinc_reported_R : forall (st : @SincFixedIn CR),
   0 <= SincFixedIn_resample_ratio st -> (0 <= SincFixedIn_interpolator_len st)%Z ->
   @si_output_delay CR st = Flocq.Core.Raux.Zfloor (IZR (SincFixedIn_interpolator_len st) * SincFixedIn_resample_ratio st / 2).
 Proof. exact sinc_reported_delay. Qed.
+
+(** the FFT delay is fft_size_out/2 because the filter built in FftResampler::new is a linear-phase
+    sinc of length fft_size_in centred at fft_size_in/2: that construction is modelled by hand (the
+    spectral core is an oracle of the model), so its source text is pinned *)
+Theorem C14_fft_core_pinned : Rubato.Gen.Summary.src_hash_fft_core = "b42bed0dd611432617a6cd35a406882c"%string.
+Proof. reflexivity. Qed.
 
 Print Assumptions C14_fast_true_delay_R.
 Print Assumptions C14_fast_in_delay_R.
